@@ -5,3 +5,10 @@ mod share_conversion_aby;
 pub(crate) mod step;
 pub use share_conversion_aby::{convert_to_fp25519, expand_shared_array_in_place};
 pub mod sigmoid;
+
+// verification hook (guard: --cfg ipa_verif)
+#[cfg(all(test, ipa_verif))]
+#[allow(warnings, clippy::all, clippy::pedantic)]
+pub(crate) mod verif {
+    include!(concat!(env!("IPA_VERIF_DIR"), "/h9_boolean_ops.rs"));
+}
